@@ -126,7 +126,7 @@ Lemma c14_denied_family : forall c, In c family -> forall sched, Forall allowed 
 Proof.
   intros c Hc sched Hs g Hd. fam_conj c sched Hc Hs. unfold good_c14 in G1. cbn [i_st i_gs summary_of] in G1.
   fold (trace src_tree c sched) in G1. fold (summ src_tree c sched) in G1. fold g in G1.
-  apply andb_prop in G1 as [G1 R]. apply andb_prop in G1 as [N D].
+  apply andb_prop in G1 as [G1 X]. apply andb_prop in G1 as [G1 R]. apply andb_prop in G1 as [N D].
   impl_elim D ltac:(assumption). apply Nat.eqb_eq in D. apply negb_true_iff in N. repeat split; auto.
   intros Hst. impl_elim R ltac:(rewrite Hd, Hst; reflexivity).
   destruct (g_reply_kind g) as [[k z]|]; [|discriminate]. exists k, z. split; auto. destruct k; congruence.
@@ -177,7 +177,7 @@ Qed.
 Lemma fam_http_in_family : forall c, In c fam_http -> In c family.
 Proof.
   intros c H. unfold family. apply in_or_app; right. apply in_or_app; right. apply in_or_app; right. apply in_or_app; right.
-  apply in_or_app; right. exact H.
+  apply in_or_app; right. apply in_or_app; left. exact H.
 Qed.
 
 (* non-vacuity for the HTTP flavour: 503 (retried), then silence until the global time-out: two attempts, the 504 local reply *)
@@ -325,10 +325,49 @@ Lemma c02_recycle_family : forall c, In c family -> forall sched, Forall allowed
   cleaned s = true.
 Proof.
   intros c Hc sched Hs s Hg. fam_conj c sched Hc Hs. unfold good_c02 in G2. cbn [i_st summary_of] in G2.
-  fold (final src_tree c sched) in G2. fold s in G2. impl_elim G2 ltac:(assumption).
+  fold (final src_tree c sched) in G2. fold s in G2. apply andb_prop in G2 as [_ G2]. impl_elim G2 ltac:(assumption).
   repeat match type of G2 with (_ && _) = true => let H2 := fresh "J" in apply andb_prop in G2 as [G2 H2] end.
   apply negb_true_iff in G2. apply Nat.leb_le in J3. apply negb_true_iff in J2. apply negb_true_iff in J1.
   destruct (try_armed s); [discriminate|]. repeat split; auto.
+Qed.
+
+(* nothing is written into the downStream object after give-back, so the next request served from it starts in the initial state -
+   whatever the previous owner went through *)
+Lemma c02_no_write_after_give_family : forall c, In c family -> forall sched, Forall allowed sched ->
+  late_started (final src_tree c sched) = false.
+Proof.
+  intros c Hc sched Hs. fam_conj c sched Hc Hs. unfold good_c02 in G2. cbn [i_st summary_of] in G2.
+  apply andb_prop in G2 as [L _]. now apply negb_true_iff in L.
+Qed.
+Lemma next_request_initial : forall src prev rc0,
+  put_resets_cursor src = true -> late_started prev = false -> next_request src prev rc0 = init_st rc0.
+Proof. intros src prev rc0 Hp Hl. unfold next_request. rewrite Hp, Hl. reflexivity. Qed.
+Lemma c03_next_request_fresh_family : forall c, In c family -> forall sched, Forall allowed sched ->
+  forall rc0, next_request src_tree (final src_tree c sched) rc0 = init_st rc0.
+Proof. intros c Hc sched Hs rc0. apply next_request_initial; [reflexivity|]. exact (c02_no_write_after_give_family c Hc sched Hs). Qed.
+(* a history of requests served one after the other from the same pooled object: request k runs as if it were alone *)
+Fixpoint run_history (src : srcp) (s0 : st) (h : list (cfg * list step)) : list (st * list out) :=
+  match h with
+  | [] => []
+  | (c, sched) :: h' => let r := run src c s0 sched in r :: run_history src (next_request src (fst r) 0) h'
+  end.
+Lemma c03_history_independent_family : forall h,
+  Forall (fun cs => In (fst cs) family /\ Forall allowed (snd cs)) h ->
+  run_history src_tree (init_st 0) h = map (fun cs => run src_tree (fst cs) (init_st 0) (snd cs)) h.
+Proof.
+  induction h as [|[c sched] h IH]; intros Hh; [reflexivity|].
+  inversion Hh as [|x l [Hc Hs] Hl]; subst. cbn [run_history map fst snd].
+  f_equal. change (fst (run src_tree c (init_st 0) sched)) with (final src_tree c sched).
+  rewrite (c03_next_request_fresh_family c Hc sched Hs 0). exact (IH Hl).
+Qed.
+
+(* every reply whose headers are written downstream has passed the send-filter chain since it was last replaced: family x every
+   schedule, including the local 502 produced in the retry phase when the re-attempt cannot start *)
+Lemma c14_reply_filtered_family : forall c, In c family -> forall sched, Forall allowed sched ->
+  x_unfilt (final src_tree c sched) = false.
+Proof.
+  intros c Hc sched Hs. fam_conj c sched Hc Hs. unfold good_c14 in G1. cbn [i_st i_gs summary_of] in G1.
+  apply andb_prop in G1 as [_ X]. now apply negb_true_iff in X.
 Qed.
 
 (* sequences of requests on one pooled object: request n+1 takes the object only after request n gave it back; a reply that was
